@@ -4,6 +4,7 @@ import (
 	"go/token"
 	"go/types"
 	"strings"
+	"syscall"
 
 	"golang.org/x/tools/go/ssa"
 
@@ -389,6 +390,14 @@ func isWriteFile(n *core.Node) bool {
 	return n.IsCallTo("io/ioutil.WriteFile", "os.WriteFile")
 }
 func isCreate(n *core.Node) bool {
+	if n.IsCallTo("os.OpenFile") && len(n.Call.Args) >= 2 {
+		// a constant read-only open (O_RDONLY, possibly O_NONBLOCK etc.) creates and changes nothing
+		if k, ok := n.Call.Args[1].(*ssa.Const); ok && k.Value != nil {
+			if v := k.Int64(); v&int64(syscall.O_WRONLY|syscall.O_RDWR|syscall.O_CREAT|syscall.O_TRUNC|syscall.O_APPEND) == 0 {
+				return false
+			}
+		}
+	}
 	return n.IsCallTo("os.Create", "os.OpenFile", "os.Link", "os.Symlink")
 }
 
